@@ -184,7 +184,7 @@ struct Hist {
     Polyhedron& P = *slot[s].p;
     dimension_type n = P.space_dimension();
     OS o;
-    unsigned k = r.below(c02 ? 30 : 22);
+    unsigned k = r.below(c02 ? 34 : 22);
     try {
       switch (k) {
       case 0: case 1: { Constraint_System cs = rnd_cs(r, n, nnc, 2, big);
@@ -302,6 +302,27 @@ struct Hist {
         bool img = (k == 26);
         o << "op " << s << (img ? " bnd_img " : " bnd_pre ") << v << " " << d; put_expr(o, lb, n); put_expr(o, ub, n); J.line(o.str());
         if (img) P.bounded_affine_image(Variable(v), lb, ub, d); else P.bounded_affine_preimage(Variable(v), lb, ub, d);
+        break; }
+      case 28: { int t = pick_compatible(s);       // result judged by its defining relations
+        o << "pre " << s << " simplify_ctx " << t; J.line(o.str());
+        bool b = P.simplify_using_context_assign(*slot[t].p);
+        OS q; q << "res " << s << " simplify_ctx " << t << " " << b; put_cs(q, P.constraints(), n); J.line(q.str());
+        break; }
+      case 29: case 30: { int t = pick_compatible(s);
+        o << "pre " << s << " diff " << t; J.line(o.str());
+        if (r.chance(1, 2)) P.poly_difference_assign(*slot[t].p); else P.difference_assign(*slot[t].p);
+        OS q; q << "res " << s << " diff " << t << " 1"; put_cs(q, P.constraints(), n); J.line(q.str());
+        break; }
+      case 31: case 32: { int t = pick_compatible(s);
+        hint(s); hint(t);
+        o << "pre " << s << " hull_if_exact " << t; J.line(o.str());
+        bool alt = r.chance(1, 2);
+        bool b = nnc
+          ? (alt ? static_cast<NNC_Polyhedron&>(P).poly_hull_assign_if_exact(static_cast<const NNC_Polyhedron&>(*slot[t].p))
+                 : static_cast<NNC_Polyhedron&>(P).upper_bound_assign_if_exact(static_cast<const NNC_Polyhedron&>(*slot[t].p)))
+          : (alt ? static_cast<C_Polyhedron&>(P).poly_hull_assign_if_exact(static_cast<const C_Polyhedron&>(*slot[t].p))
+                 : static_cast<C_Polyhedron&>(P).upper_bound_assign_if_exact(static_cast<const C_Polyhedron&>(*slot[t].p)));
+        OS q; q << "res " << s << " hull_if_exact " << t << " " << b; put_cs(q, P.constraints(), n); J.line(q.str());
         break; }
       default: { int t = pick_compatible(s);
         o << "op " << s << " meet " << t; J.line(o.str());
